@@ -223,6 +223,9 @@ class GenX(F.Gen):
         if ck == 'intsub':
             # host loop variables are never touched (own i j l w); host scalars that are host associated stay writable
             pass
+        # nested references (a callee that itself calls generated procedures) only with feature 'nested'
+        if 'nested' not in self.f:
+            lower = []
         sub.helpers = [h for h in lower if h['ck'] == 'modsub'] if ck in ('modsub', 'intsub') else []
         funs = [h for h in lower if h['ck'] in (('elemental',) if ck == 'elemental' else ('modfun', 'elemental'))]
         sub.leaf_extra = [h['mkleaf'] for h in funs] + list(self.const_leaves if ck in ('intsub', 'intfun') and 'constinternal' in self.f else [])
@@ -243,6 +246,7 @@ class GenX(F.Gen):
             r = roles.get(s)
             if r in (L, 'RES') or (r == D and intents[s] == 'out'):
                 init.append(init_std[s])
+        init = [dict(st, init=1) for st in init]      # shrinking keeps initialisations (legality)
         body = init + body
         # names
         ident = 'identnames' in self.f and rng.random() < 0.5
@@ -250,7 +254,8 @@ class GenX(F.Gen):
         nm = {}
         for s, r in roles.items():
             if r == D:
-                nm[s] = s if ident else DUMMY_NAMES[s]
+                # per-callee dummy names: an actual never mentions a name of the callee it is passed to
+                nm[s] = s if ident else f'{DUMMY_NAMES[s]}_{name}'
             elif r == L:
                 nm[s] = s if keep_locals else s + 'c'
             elif r == 'RES':
@@ -258,7 +263,7 @@ class GenX(F.Gen):
             else:
                 nm[s] = s
         if isfun and not ident:
-            nm.update({'n': 'u', 'm': 'v'} if roles['n'] == D and roles.get('m') == D else {'n': 'u'} if roles['n'] == D else {})
+            nm.update({s: f'{d}_{name}' for s, d in (('n', 'u'), ('m', 'v')) if roles.get(s) == D})
         body = rename(body, nm)
         args = [nm[s] for s in STD_ORDER if roles.get(s) == D]
         if ck == 'modsub' and rng.random() < 0.5:
@@ -463,6 +468,7 @@ class GenX(F.Gen):
         decls += kdecls_extra
         init = [assign(V('k'), N(0)), assign(V('x'), R(0)), assign(V('t1'), V('m')), assign(V('t2'), N(1)), assign(V('y'), R(1, 2)),
                 assign(V('la'), V('ia'))]
+        init = [dict(st, init=1) for st in init]
         body = init + self.block(depth, nstmts) + [{'s': 'print', 'items': [V('t1'), V('t2'), V('y'), V('la')]}]
         kernel = unit('kernel', args, decls, body)
         kernel['mod'] = 'kmod'
@@ -508,6 +514,17 @@ def prune(prog):
 
 
 # ----------------------------------------------------------------------------- outline regions (C33)
+def regions_post(count=(1, 2), **kw):
+    """generate() post-processor: put outline regions into the kernel."""
+    def post(rng, prog):
+        insert_regions(rng, prog['units'][0], rng.randint(*count), **kw)
+    return post
+
+
+def has_region(prog):
+    return any(st['s'] == 'raw' and st['text'].startswith('!$loki outline') for st in _flat(prog['units'][0]['body']))
+
+
 def region_ok(ss):
     """A statement list can be outlined iff control cannot leave it other than by falling through."""
     def esc(ss, inloop):
@@ -548,7 +565,7 @@ def blocks_of(ss, inside_assoc=False, acc=None):
     return acc
 
 
-def insert_regions(rng, kernel, count, *, overrides=True, names=True, allow_assoc=False, skip=6):
+def insert_regions(rng, kernel, count, *, overrides=True, names=True, allow_assoc=False, allow_print=False, skip=6):
     """Wrap up to `count` disjoint statement ranges of the kernel body into `!$loki outline` regions."""
     intent_in = {d['name'] for d in kernel['decls'] if d['intent'] == 'in'}
     params = {d['name'] for d in kernel['decls'] if d.get('param')}
@@ -566,6 +583,8 @@ def insert_regions(rng, kernel, count, *, overrides=True, names=True, allow_asso
         b = rng.randint(a + 1, min(hi0, a + 3))
         seg = blk[a:b]
         if not region_ok(seg):
+            continue
+        if not allow_print and any(st['s'] == 'print' for st in _flat(seg)):
             continue
         pragma = '!$loki outline'
         if names and rng.random() < 0.5:
@@ -1068,6 +1087,16 @@ def site_candidates(prog, limit=24):
     return out[:limit]
 
 
+def n_inits(prog):
+    return [sum(1 for st in _flat(u['body']) if st.get('init')) for u in prog['units']]
+
+
+def removal_candidates(prog, limit=24):
+    """lib_fm.removal_candidates minus the candidates that lose an initialisation statement."""
+    want = n_inits(prog)
+    return [c for c in F.removal_candidates(prog, limit=limit + 12) if n_inits(c) == want][:limit]
+
+
 def expr_candidates(prog, limit=24):
     """Programs in which one compound expression is replaced by one of its operands or by the literal 1."""
     found = []
@@ -1077,6 +1106,8 @@ def expr_candidates(prog, limit=24):
             for i, x in enumerate(o):
                 walk(x, path + [i])
         elif isinstance(o, dict):
+            if o.get('init'):
+                return
             if o.get('k') in ('sum', 'prod', 'quot', 'pow', 'neg', 'par', 'call', 'and', 'or', 'not', 'arr') and path and path[-1] != 'lhs':
                 found.append((path, o))
             for key, v in o.items():
@@ -1170,7 +1201,7 @@ def shrink(ctx, rep, inputs, transform, rounds, tagbase):
             break
         cur = hist[-1]
         if phase == 0:
-            cands = site_candidates(cur, 8) + F.removal_candidates(cur, limit=24)
+            cands = site_candidates(cur, 8) + removal_candidates(cur, limit=24)
         else:
             cands = expr_candidates(cur, 24)
         cands = [prune(copy.deepcopy(c)) for c in cands]
